@@ -52,7 +52,8 @@ def vqe_configs(quick):
     cf = []
     for mp in ("jw", "bk", "scbk", "jkmn"):
         for utd in (False, True):
-            cf.append(C("H2-UCCSD-%s-%s" % (mp, "utd" if utd else "alt"), "H2", "UCCSD", mp, utd, nthetas=2 if quick else 4))
+            h = (mp == "scbk" and not utd) or (mp == "jw" and not utd and not quick)
+            cf.append(C("H2-UCCSD-%s-%s" % (mp, "utd" if utd else "alt"), "H2", "UCCSD", mp, utd, nthetas=3 if h else (2 if quick else 4), hist=h))
     cf.append(C("H2-HEA-jw", "H2", "HEA", "jw", False, budget=4, nthetas=2 if quick else 4))        # not number conserving
     cf.append(C("H2-HEA-bk", "H2", "HEA", "bk", True, budget=4, nthetas=2 if quick else 3))
     cf.append(C("H2-UpCCGSD-jw", "H2", "UpCCGSD", "jw", True, nthetas=2))
@@ -66,7 +67,10 @@ def vqe_configs(quick):
     cf.append(C("H2-UCCSD-jw-refcirc", "H2", "UCCSD", "jw", False, ref="circuit", nthetas=2))
     cf.append(C("H2-UpCCGSD-bk-refvec", "H2", "UpCCGSD", "bk", False, ref="vector", nthetas=2))
     cf.append(C("H2-UCCSD-jw-proj", "H2", "UCCSD", "jw", False, proj="unitary", nthetas=2))
-    cf.append(C("H2uhf-UCCSD-jw", "H2_uhf", "UCCSD", "jw", False, nthetas=2 if quick else 4))
+    cf.append(C("H2uhf-UCCSD-jw", "H2_uhf", "UCCSD", "jw", False, nthetas=3 if quick else 4, hist=True))
+    # UHF, frozen occupied sets non-empty and different per spin ([[0,1],[0,3]])
+    cf.append(C("H4muhf-fz-UCCSD-jw", "H4-_uhf_fz", "UCCSD", "jw", False, nthetas=2 if quick else 4))
+    cf.append(C("H4muhf-fz-UCCSD-scbk", "H4-_uhf_fz", "UCCSD", "scbk", False, nthetas=3, hist=not quick))
     cf.append(C("H2muhf-UCCSD-scbk", "H2-_uhf", "UCCSD", "scbk", False, nthetas=2))
     cf.append(C("H2uhf-UCCSD-bk", "H2_uhf", "UCCSD", "bk", True, nthetas=2))
     cf.append(C("H4-UCCSD-jw", "H4", "UCCSD", "jw", False, engine="cliff", M=8, nthetas=1 if quick else 3))
@@ -396,7 +400,7 @@ def run_vqe_jobs(chk, samples, stof, name):
                 recs[rec["id"]] = rec
     out = {}
     for jid, s in byid.items():
-        out[jid] = vqe_judge(chk, s, verdicts[jid], recs.get(jid), stof[id(s)])
+        out[jid] = s.ok = vqe_judge(chk, s, verdicts[jid], recs.get(jid), stof[id(s)])
         chk.add_traces(1, "vqe_rdm_" + s.cfg["engine"])
     return verdicts, recs, byid
 
@@ -538,6 +542,9 @@ def shapes(rng):
     U("U-core0-2e", [1, 1, 0], [1, 1, 0], [0], [0])
     U("U-core0-virt3", [1, 1, 1, 0], [1, 1, 0, 0], [0, 3], [0, 3])
     U("U-asymmetric", [1, 1, 0], [1, 0, 0], [0], [2])
+    # frozen OCCUPIED sets non-empty and different per spin: nested ({0,1} / {0}) and crossed ({0,1} / {1,2})
+    U("U-core-nested", [1, 1, 1, 0], [1, 1, 0, 0], [0, 1], [0, 3])
+    U("U-core-crossed", [1, 1, 1, 0], [1, 1, 1, 0], [0, 1], [1, 2])
     return S
 
 
@@ -724,7 +731,7 @@ def efix(E):
 
 def classical_cases(quick):
     cs = [("H2", "FCI"), ("H2", "CCSD"), ("H2", "MP2"), ("LiH_fz", "FCI"), ("LiH_fz", "CCSD"), ("H2-", "FCI"), ("H2-", "CCSD"), ("H4", "FCI"), ("H4", "CCSD"),
-          ("H4", "MP2")]
+          ("H4", "MP2"), ("H4-_uhf_fz", "CCSD"), ("H2_uhf", "CCSD")]
     if not quick:
         cs += [("H4+", "FCI"), ("H4+", "CCSD"), ("LiH", "FCI"), ("LiH", "CCSD"), ("LiH", "MP2"), ("LiH_fc", "CCSD"), ("LiH_fc", "FCI"), ("H2O_fz", "CCSD"),
                ("H2O_fz", "FCI"), ("H4_uhf", "CCSD")]
